@@ -2,6 +2,7 @@ package core
 
 import (
 	"fmt"
+	"go/types"
 	"regexp"
 	"sort"
 	"strings"
@@ -143,6 +144,7 @@ func EnumerateDecisions(p *Program, fn *ssa.Function, opts DecisionOpts) (paths 
 		backUsed map[edge]bool
 		eqTrue   map[string]string
 		events   []string
+		allocVal map[*ssa.Alloc]ssa.Value
 	}
 	clone := func(s *state) *state {
 		n := &state{assign: map[string]bool{}, visits: map[*ssa.BasicBlock]int{}, phiEdge: map[*ssa.Phi]ssa.Value{}, backUsed: map[edge]bool{}, eqTrue: map[string]string{}}
@@ -150,6 +152,10 @@ func EnumerateDecisions(p *Program, fn *ssa.Function, opts DecisionOpts) (paths 
 			n.eqTrue[k] = v
 		}
 		n.events = append([]string{}, s.events...)
+		n.allocVal = map[*ssa.Alloc]ssa.Value{}
+		for k, v := range s.allocVal {
+			n.allocVal[k] = v
+		}
 		for k, v := range s.assign {
 			n.assign[k] = v
 		}
@@ -248,7 +254,16 @@ func EnumerateDecisions(p *Program, fn *ssa.Function, opts DecisionOpts) (paths 
 		canon := NewCanon(p)
 		canon.PhiEdge = st.phiEdge
 		canon.PhiName = phiName
+		canon.AllocVal = st.allocVal
 		for _, in := range b.Instrs {
+			// results spilled to locals because of a defer: remember the last store per local
+			if sto, ok := in.(*ssa.Store); ok {
+				if al, ok := sto.Addr.(*ssa.Alloc); ok {
+					if _, isStruct := al.Type().Underlying().(*types.Pointer).Elem().Underlying().(*types.Struct); !isStruct {
+						st.allocVal[al] = sto.Val
+					}
+				}
+			}
 			if opts.Event != nil {
 				if ev, ok := opts.Event(in, canon); ok {
 					st.events = append(st.events, ev)
@@ -374,7 +389,7 @@ func EnumerateDecisions(p *Program, fn *ssa.Function, opts DecisionOpts) (paths 
 	if opts.IterateAt != nil {
 		startBlock = opts.IterateAt
 	}
-	walk(startBlock, nil, &state{assign: map[string]bool{}, visits: map[*ssa.BasicBlock]int{}, phiEdge: map[*ssa.Phi]ssa.Value{}, backUsed: map[edge]bool{}, eqTrue: map[string]string{}})
+	walk(startBlock, nil, &state{assign: map[string]bool{}, visits: map[*ssa.BasicBlock]int{}, phiEdge: map[*ssa.Phi]ssa.Value{}, backUsed: map[edge]bool{}, eqTrue: map[string]string{}, allocVal: map[*ssa.Alloc]ssa.Value{}})
 	if overflow {
 		return paths, atoms, fmt.Errorf("more than %d decision paths in %s", opts.MaxPaths, fn)
 	}
